@@ -2,9 +2,12 @@
 from __future__ import annotations
 
 from pathlib import Path
+import re
 import sys
 import functools
 from typing import Any, Type, TypeVar, Tuple, Union, cast, TYPE_CHECKING
+
+from pydoctor import qnmatch
 
 if TYPE_CHECKING:
     from pydoctor import model
@@ -92,7 +95,14 @@ def parse_privacy_tuple(value:str, opt: str) -> Tuple['model.PrivacyClass', str]
     except:
         error(f"{opt}: unknown privacy value {parts[0]!r} should be one of {', '.join(repr(m.name) for m in model.PrivacyClass)}")
     else:
-        return (priv, parts[1].strip())
+        pattern = parts[1].strip()
+        try:
+            # A pattern like 'mod.[z-a]*' translates to a regex that L{re} refuses (bad character range):
+            # report it now rather than crash with a traceback when the first object is matched.
+            re.compile(qnmatch.translate(pattern))
+        except re.error as e:
+            error(f"{opt}: invalid pattern {pattern!r}: {e}.")
+        return (priv, pattern)
 
 def partialclass(cls: Type[Any], *args: Any, **kwds: Any) -> Type[Any]:
     """
